@@ -52,12 +52,20 @@ def _enum_pad(tier):
                         i += 1
                         if tier == "quick" and i % 13:
                             continue
-                        yield {"n": [n_r, n_c], "N": [N_r, N_c], "depth": depth}
+                        yield {"n": [n_r, n_c], "N": [N_r, N_c], "depth": depth,
+                               "dtype": ["float", "int", "complex", "bool"][i % 4]}
 
 
 def _pad_body(case, ctx):
     n, N, depth = tuple(case["n"]), tuple(case["N"]), case["depth"]
     a = _vals(n) if depth == 0 else np.stack([_vals(n, 100 * d) for d in range(depth)])
+    dt = case.get("dtype", "float")
+    if dt == "int":
+        a = (a * 2).astype(np.int64)
+    elif dt == "complex":
+        a = a + 1j * (a % 5)
+    elif dt == "bool":
+        a = (a % 3 != 0)
     a0 = a.copy()
     par = any((x % 2) != (y % 2) for x, y in zip(n, N))
     mixed = (N[0] - n[0]) * (N[1] - n[1]) < 0
@@ -66,6 +74,7 @@ def _pad_body(case, ctx):
             "odd->even" if any(x % 2 == 1 and y % 2 == 0 and y > x for x, y in zip(n, N)) else None,
             "even->odd_crop" if any(x % 2 == 0 and y % 2 == 1 and y < x for x, y in zip(n, N)) else None)
     ctx.nontrivial_if(par)
+    ctx.tag("dtype:" + dt)
     with lentil_call("C20.pad", f"pad({a.shape} -> {N})"):
         out = lentil.pad(a, N)
     exp = ref_pad2(a, N) if depth == 0 else np.stack([ref_pad2(s, N) for s in a])
@@ -97,7 +106,7 @@ def pad_enum(case, ctx):
 def pad_case(draw, tier):
     hi = 14 if tier == "quick" else 30
     return {"n": list(draw(gen.shape2(1, hi))), "N": list(draw(gen.shape2(1, hi))),
-            "depth": draw(st.sampled_from([0, 0, 1, 2, 4]))}
+            "depth": draw(st.sampled_from([0, 0, 1, 2, 4])), "dtype": draw(st.sampled_from(["float", "int", "complex", "bool"]))}
 
 
 @hyp("C20", "pad", lambda tier: pad_case(tier), "drawn (n -> N) incl. larger sizes and cubes", examples=(300, 1500))
